@@ -311,6 +311,20 @@ func RunReplay(t *testing.T) {
 	if path == "" {
 		t.Skip("no VERIF_REPLAY")
 	}
+	if st, err := os.Stat(path); err == nil && st.IsDir() {
+		// regression tier: replay every saved case of the directory as its own subtest
+		files, _ := filepath.Glob(filepath.Join(path, "*.json"))
+		sort.Strings(files)
+		for _, f := range files {
+			f := f
+			t.Run(filepath.Base(f), func(t *testing.T) { replayFile(t, f) })
+		}
+		return
+	}
+	replayFile(t, path)
+}
+
+func replayFile(t *testing.T, path string) {
 	data, err := os.ReadFile(path)
 	if err != nil {
 		t.Fatalf("cannot read replay file: %v", err)
